@@ -32,7 +32,7 @@ RULES = {
 }
 PROBES = ["polling_detects", "reset_detects", "burst_too_short", "burst_too_long", "repeat_too_short", "repeat_too_long",
           "good_after_bad", "bad_between_good", "line_glitch", "ping_detector_runs", "generator_runs", "alternating_in_out",
-          "generator_cycles_checked", "generate_dropped_mid_cycle"]
+          "generator_cycles_checked", "generate_dropped_mid_cycle", "transceiver_runs", "transceiver_runs_while_sending"]
 META = {
     "components_real": ["luna.gateware.usb.usb3.physical.lfps.LFPSDetector", "luna.gateware.usb.usb3.physical.lfps.LFPSGenerator"],
     "components_stubbed": ["PHY LFPS envelope (signaling_received) as literal durations", "LTSSM request (generate)"],
@@ -137,13 +137,24 @@ def gen(rng, tier, index):
         if rng.random() < 0.08 and h > 12:
             op["glitch"] = [rng.randint(4, h - 4), rng.randint(1, 3)]
         ops.append(op)
-    return {"engine": ENGINE, "config": {"dut": kind, "f": f}, "ops": ops}
+    cfg = {"dut": kind, "f": f}
+    if kind == "polling" and rng.random() < 0.35:
+        # the same detector as it sits inside LFPSTransceiver, with our own polling generator running or not (both partners
+        # signal during Polling.LFPS): what we send must not change what we report about the partner's signalling
+        cfg["via"] = "transceiver"
+        cfg["send_polling"] = rng.choice([1, 1, 0, [rng.randint(20, 400), rng.randint(20, 400)]])
+    return {"engine": ENGINE, "config": cfg, "ops": ops}
 
 
 # ------------------------------------------------------------------------------------------------
-def _bench(kind, f):
+def _bench(kind, f, via=None):
     def factory():
         from luna.gateware.usb.usb3.physical import lfps
+        if via == "transceiver":
+            dut = lfps.LFPSTransceiver(ss_clk_freq=f)
+            ins = {"rx": dut.signaling_received, "send_polling": dut.send_polling}
+            outs = {"detect": dut.polling_detected, "reset_detect": dut.reset_detected, "send": dut.send_signaling}
+            return make_bench(dut, clocks={"ss": 1 / 125e6}, main="ss", ins=ins, outs=outs)
         if kind == "generator":
             dut = lfps.LFPSGenerator(lfps._PollingLFPS, f)
             ins = {"generate": dut.generate}
@@ -154,7 +165,7 @@ def _bench(kind, f):
             ins = {"rx": dut.signaling_received}
             outs = {"detect": dut.detect}
         return make_bench(dut, clocks={"ss": 1 / 125e6}, main="ss", ins=ins, outs=outs)
-    return cached_bench(("c42", kind, f), factory)
+    return cached_bench(("c42", kind, f, via), factory)
 
 
 def _expand(ops):
@@ -294,16 +305,26 @@ class _EnvelopeActor:
                 t += n
         self.changes[t] = 0
         self.dead = False
+        self.send_polling = cfg.get("send_polling") if cfg.get("via") == "transceiver" else None
+        self.own_bursts = 0
 
     def drive(self, t):
         lvl = self.changes.get(t)
-        if lvl is None:
-            return None
-        return {"rx": lvl}
+        pins = {} if lvl is None else {"rx": lvl}
+        sp = self.send_polling
+        if sp is not None:
+            if isinstance(sp, list):
+                on, off = sp
+                pins["send_polling"] = 1 if (t % (on + off)) < on else 0
+            elif t == 0:
+                pins["send_polling"] = sp
+        return pins or None
 
     def observe(self, t, o):
         if self.dead:
             return True
+        if o.get("send"):
+            self.own_bursts += 1
         if o["detect"]:
             r = self.oracle.strobe(t)
             if r:
@@ -394,7 +415,7 @@ class _GeneratorActor:
 def run(scn):
     cfg = scn["config"]
     kind, f = cfg["dut"], cfg["f"]
-    bench = _bench(kind, f)
+    bench = _bench(kind, f, cfg.get("via"))
     viol = Violations()
     probes = {p: 0 for p in PROBES}
     if kind == "generator":
@@ -433,6 +454,10 @@ def run(scn):
                 probes["alternating_in_out"] += 1
         if kind == "ping":
             probes["ping_detector_runs"] += 1
+        if cfg.get("via") == "transceiver":
+            probes["transceiver_runs"] += 1
+            if actor.own_bursts:
+                probes["transceiver_runs_while_sending"] += 1
         classes = (kind, f, tuple((op["cls"], op.get("pcls"), "glitch" in op) for op in ops), len(actor.oracle.strobes))
         faults = {"line_glitch": probes["line_glitch"], "out_of_window_burst": probes["burst_too_short"] + probes["burst_too_long"],
                   "out_of_window_repeat": probes["repeat_too_short"] + probes["repeat_too_long"]}
